@@ -196,7 +196,7 @@ inline bool summarise_table(const std::string &bytes, uint64_t number, CmpKind c
 }
 
 // Returns false with *why = "C14: ..." / "C13: ..." on the first problem.
-inline bool layout_deep_check(const Layout &L, const std::string &dir, CmpKind ck, std::string *why, SummaryCache *cache = nullptr) {
+inline bool layout_deep_check(const Layout &L, const std::string &dir, CmpKind ck, std::string *why, SummaryCache *cache = nullptr, bool skip_l0_number_order = false) {
   struct Src { int level; uint64_t number; uint64_t minseq, maxseq; };
   std::map<std::string, std::vector<Src>> per_user;
   SummaryCache local;
@@ -256,6 +256,7 @@ inline bool layout_deep_check(const Layout &L, const std::string &dir, CmpKind c
       return false;
     });
     for (size_t i = 1; i < v.size(); i++) {
+      if (skip_l0_number_order && v[i].level == 0 && v[i - 1].level == 0) continue;
       if (!(v[i].maxseq < v[i - 1].minseq)) {
         *why = sfmt("C14: user key %s: version @%llu in L%d table #%llu is not older than version @%llu in L%d table #%llu above it",
                     lit_token(p.first).substr(0, 60).c_str(), (unsigned long long)v[i].maxseq, v[i].level, (unsigned long long)v[i].number,
